@@ -2,7 +2,7 @@
    ONLY statements: each theorem is closed by `exact` of a lemma proved elsewhere and followed by Print Assumptions. *)
 From Coq Require Import ZArith NArith List Bool Lia Permutation FMapPositive.
 Import ListNotations.
-Require Import Base Strings Num Builtins Interp Machine Spec HeapFacts Refine1 Refine2 Refine3 Refine4 RelA RelB RelC.
+Require Import Base Strings Num Builtins Interp Machine Spec HeapFacts Refine1 Refine2 Refine3 Refine4 RelA RelB RelC RunG ShortCircuit.
 
 (* two programs equal except at sub-expressions (related by ANY relation `hole`) that the first run never evaluates nor inspects give the same result and the same effects, whatever stands in those positions (a throw, a divergent call, a print) *)
 Theorem hole_irrelevant (hole : ast -> ast -> Prop) fuel prog prog' stdin hf wf r d :
@@ -10,4 +10,45 @@ Theorem hole_irrelevant (hole : ast -> ast -> Prop) fuel prog prog' stdin hf wf 
   exists hf', spec_main fuel prog' stdin = Done hf' wf r d /\ (hrel hole) hf hf'.
 Proof. exact (RelC.hole_irrelevant hole fuel prog prog' stdin hf wf r d). Qed.
 Print Assumptions hole_irrelevant.
+
+(* Boolean ㄱ / ㄷ: after the deciding operand nothing is evaluated - the heap comes back unchanged for ARBITRARY further operands *)
+Theorem deciding_operand_ends_evaluation (rec : list positive -> heap -> world -> task -> out) sp s pre rest ip h w :
+  Forall (fun v => v = VBool (negb s)) pre ->
+  runG rec value ip h w (all_bools sp (pre ++ VBool s :: rest) s) = DoneG h w (inl (VBool s)) 0.
+Proof. exact (ShortCircuit.deciding_operand_ends_evaluation rec sp s pre rest ip h w). Qed.
+Print Assumptions deciding_operand_ends_evaluation.
+
+Theorem all_after_false_untouched (rec : list positive -> heap -> world -> task -> out) sp pre rest ip h w :
+  Forall (fun v => v = VBool true) pre ->
+  runG rec value ip h w (all_bools sp (pre ++ VBool false :: rest) false) = DoneG h w (inl (VBool false)) 0.
+Proof. exact (ShortCircuit.all_after_false_untouched rec sp pre rest ip h w). Qed.
+Print Assumptions all_after_false_untouched.
+
+Theorem any_after_true_untouched (rec : list positive -> heap -> world -> task -> out) sp pre rest ip h w :
+  Forall (fun v => v = VBool false) pre ->
+  runG rec value ip h w (all_bools sp (pre ++ VBool true :: rest) true) = DoneG h w (inl (VBool true)) 0.
+Proof. exact (ShortCircuit.any_after_true_untouched rec sp pre rest ip h w). Qed.
+Print Assumptions any_after_true_untouched.
+
+(* a Boolean call returns the selected argument unevaluated and never touches the other *)
+Theorem boolean_call_selects (rec : list positive -> heap -> world -> task -> out) b sp x y ip h w :
+  runG rec value ip h w (apply_body (EBool b) sp [x; y]) = DoneG h w (inl (if b then x else y)) 0.
+Proof. exact (ShortCircuit.boolean_call_selects rec b sp x y ip h w). Qed.
+Print Assumptions boolean_call_selects.
+
+Theorem list_constructor_forces_nothing (rec : list positive -> heap -> world -> task -> out) sp argv ip h w :
+  runG rec value ip h w (bi_list sp argv) = DoneG h w (inl (VList argv)) 0.
+Proof. exact (ShortCircuit.list_constructor_forces_nothing rec sp argv ip h w). Qed.
+Print Assumptions list_constructor_forces_nothing.
+
+Theorem length_forces_no_element (rec : list positive -> heap -> world -> task -> out) sp l ip h w :
+  runG rec value ip h w (bi_len sp [VList l]) = DoneG h w (inl (VInt (Z.of_nat (length l)))) 0.
+Proof. exact (ShortCircuit.length_forces_no_element rec sp l ip h w). Qed.
+Print Assumptions length_forces_no_element.
+
+Theorem index_returns_element_unevaluated (rec : list positive -> heap -> world -> task -> out) sp l i x ip h w :
+  py_nth l i = Some x ->
+  runG rec value ip h w (apply_body (ESeq (VList l)) sp [VInt i]) = DoneG h w (inl x) 0.
+Proof. exact (ShortCircuit.index_returns_element_unevaluated rec sp l i x ip h w). Qed.
+Print Assumptions index_returns_element_unevaluated.
 
